@@ -1,11 +1,13 @@
 PROP = {
     "go_test": "TestC12",
     "claimed": True,
-    "level_text": "Kernel-checked theorems (13, closed under the global context): for every endpoint x status x type x ANY right mask x manager/governance/supply flags, the transcribed access decision performs the operation only for a caller meeting the documented requirement (rights from accessgrant.proto, alternatives from the spec), the per-method guard table extracted from the Go source equals the documented one (the code before fix 374f3de02, where a rights-less caller was 'holder of the whole supply' of a zero-supply marker, is refuted by a witness); a MsgTransferRequest goes through only from the admin's own account, under an accepting grant of the source, or as a forced transfer on a marker allowing it, never out of a module/contract-shaped account; over ALL sequences of uses of a grant the total moved per denom never exceeds the original limit and every recipient is on the original allow list (and the pre-fix Accept is refuted by a two-step witness). The theorems are about Gallina transcriptions; each run re-evaluates them against the real message router / marker, authz, bank keepers on ~29,000 (quick) / ~350,000 (thorough) cases inside Coq and evaluates the property's checker on the implementation's own observations.",
-    "level_note": "Trusted: Coq kernel + vm_compute; the hand transcriptions Marker/Access.v (decision table + documented table) and Marker/Authz.v, tied to the code by the correspondence run only (bounded by its generators) and by the generated table GenMarkerAccess.v when the translator hook is present; the harness' projection (rights set by writing the marker's access list directly, statuses reached through the real keeper transitions); module/contract accounts characterised by shape (existing, sequence 0, not marker/market/group). No axioms.",
-    "technique": "Coq proof (case analysis over the finite table, induction over use sequences) of a Gallina model + differential correspondence evaluated in Coq",
-    "coq_files": ["Marker/Access.v", "Marker/Authz.v", "Marker/AccessTable.v", "Gen/GenMarkerAccess.v", "Proofs/MarkerAccessProofs.v", "Proofs/MarkerAccessGenProofs.v", "Corr/CorrBase.v", "Corr/C12.v"],
-    "rule": "access matrix: 15 endpoints x 14 status variants (7 built with the keeper, 7 driven through the message router incl. governance ChangeStatus, e.g. Proposed -> Active directly; with/without surviving manager; the former manager holding no grant is one of the callers) x coin/restricted x a covering set of right masks (quick: empty, full, 8 singles, 8 complements, random; thorough: all 256, 64 for coin markers) x caller kind (plain, manager, former manager, governance account) x governance-control flag x supply modes (normal, caller holds all, zero supply); transfers: admin rights x forced flag x 9 source kinds x 8 grant shapes x 4 destination kinds x amounts (0, negative, partial, exact, above balance); lifecycles: random 1-5 transitions (finalize, activate, cancel, delete, governance status changes) through the real handlers, each followed by probes of the endpoints as the creating manager; sequences: 1-6 (thorough 1-10) uses of one grant with/without allow list through the marker keeper's authz handler and through authz MsgExec. A case is non-trivial when the call succeeded (access, transfer) or at least two uses of the grant were accepted (sequence); distinct = distinct configurations / step lists",
+    "level_text": "Kernel-checked theorems (30, closed under the global context). (1) For every one of the 23 administration endpoints (the 15 access-right endpoints and the 8 governance-only ones) x status x type x ANY right mask x manager/governance/supply flags, the transcribed access decision performs the operation only for a caller meeting the documented requirement; the per-method guard table extracted from the Go source equals the documented one, every rpc of the module's `service Msg` (read off tx.proto) and every msgServer method is a documented endpoint with its guard rows (a new endpoint without a row breaks the obligation), GrantAllowance needs exactly ADMIN, the governance-only endpoints need the governance account. (2) MsgTransferRequest as an EQUIVALENCE: it goes through exactly from the admin's own account, under an accepting grant of the source, or as a forced transfer (restricted marker allowing it, FORCE_TRANSFER alone suffices, never out of a module/contract-shaped account, marker accounts can be forced); DEPOSIT on a restricted recipient marker is needed whatever that marker's status (transfers and withdrawals; the status-dependent variant is refuted). (3) Over ALL histories of one grant with block time (uses, ticks, MsgGrant re-grants, revocation; keeper route and MsgExec route; any admin rights): per denom the total moved under the current issue never exceeds that issue's limit (a re-grant replaces it), the stored grant is the issue less what was used with the issue's allow list and expiration, an exhausted grant is deleted, no use consumes the grant after its expiry or reaches an address off the allow list; writing the reduced grant back without its expiration is refuted. (4) Over ALL histories of calls on two markers with AddAccess/DeleteAccess/Set-/RemoveAdministrator: every accepted call is justified by the caller's rights on the marker it names at that moment; marker A's evolution and outcomes do not depend on marker B (non-interference); granted rights hold and revoked rights stop at once; the manager invariant is kept. The theorems are about Gallina transcriptions; each run re-evaluates them against the real message router / marker, authz, feegrant, bank keepers on ~34,000 (quick) cases inside Coq and evaluates the property's checker on the implementation's own observations.",
+    "level_note": "Trusted: Coq kernel + vm_compute; the hand transcriptions Marker/Access.v (decision table + documented table), Marker/Authz.v, Marker/AuthzSeq.v (block time in whole seconds; expired grants stay stored until the authz BeginBlocker prunes them, which the harness does not run), Marker/AccessHist.v (supplies stay positive and in the markers' accounts), tied to the code by the correspondence run only (bounded by its generators) and by the generated tables of GenMarkerAccess.v (guards per method, rpc list of tx.proto, msgServer methods with the guarded keeper methods they call; recognition is syntactic; proposal_handler.go's governance-control tests are not in the table, they are exercised by the matrix) when the translator hook is present; the harness' projection (rights set by writing the marker's access list directly in the matrices, through the real AddAccess/DeleteAccess handlers in the histories; statuses reached through the real keeper transitions); module/contract accounts characterised by shape (existing, sequence 0, not marker/market/group). MsgIbcTransferRequest is covered statically only (its guard row: TRANSFER; no IBC channel in the harness). No axioms.",
+    "technique": "Coq proof (case analysis over the finite table, induction over use sequences / timed grant histories / two-marker call histories with invariants) of a Gallina model + differential correspondence evaluated in Coq",
+    "coq_files": ["Marker/Access.v", "Marker/Authz.v", "Marker/AuthzSeq.v", "Marker/AccessHist.v", "Marker/AccessTable.v", "Gen/GenMarkerAccess.v",
+                  "Proofs/MarkerAccessProofs.v", "Proofs/MarkerAccessGenProofs.v", "Proofs/MarkerTransferProofs.v", "Proofs/AuthzSeqProofs.v",
+                  "Proofs/AccessHistProofs.v", "Corr/CorrBase.v", "Corr/C12.v"],
+    "rule": "access matrix: 23 endpoints (8 governance-only) x 14 status variants (7 built with the keeper, 7 driven through the message router incl. governance ChangeStatus; with/without surviving manager; the former manager holding no grant is one of the callers) x coin/restricted x a covering set of right masks (quick: empty, full, 8 singles, 8 complements, random; thorough: all 256, 64 for coin markers) x caller kind (plain, manager, former manager, governance account) x governance-control flag x supply modes (normal, caller holds all, zero supply); transfers: admin rights x forced flag x 10 source kinds (incl. the marker's own account) x 8 grant shapes x 10 destination kinds (plain, blocked, a second restricted marker in every status proposed/finalized/active/cancelled/destroyed, coin markers) x admin with/without DEPOSIT on it x amounts; withdrawals: WITHDRAW on the source x source status x the same 10 recipients x DEPOSIT on the recipient; lifecycles: random 1-5 transitions through the real handlers, each followed by endpoint probes as the creating manager; sequences: 1-6 (thorough 1-10) uses of one grant via the keeper's authz handler and via MsgExec; timed histories: 3-9 (thorough 3-14) steps of uses (partial, exactly exhausting, over-use by 1, zero, negative), block time moving to / one second past / around the expiration, MsgGrant re-grants (valid, expired, empty limit) and MsgRevoke, limits in 1-3 denoms, allow lists with 0/1/2-4 entries, expiration or none, admin holding TRANSFER / FORCE_TRANSFER / both / neither, MsgExec grantee with random own rights; the stored grant AND its expiration observed after every step; two-marker histories: 6-14 (thorough 6-22) calls: AddAccess / DeleteAccess / Set- / RemoveAdministrator / finalize / activate / cancel / delete / the other endpoints on either marker by managers, right holders, the governance account, the address just granted the right on the OTHER marker, the address just revoked; creation (AddFinalizeActivateMarker on fresh and existing denoms), UpdateParams, the granter of accepted fee allowances, endpoint coverage. A case is non-trivial when the call succeeded (access, transfer, withdrawal, creation), at least two uses of the grant were accepted (sequences) or at least two access changes were accepted (histories); distinct = distinct configurations / step lists",
     "assumptions": ["callers are identified by the signer field of each message (Administrator / Signer / Authority / TransferAuthority)",
                     "module accounts and smart-contract accounts never sign, so they are existing accounts with sequence 0 that are neither marker, market nor group-policy accounts",
                     "Transfer / ForceTransfer cannot be stored on a coin marker (SetMarker validates), so coin markers are exercised with the 64 masks over the other six rights",
@@ -43,5 +45,6 @@ def pre(ctx):
     if p.returncode != 0:
         return {"error": "markeraccess/gen_coq.py failed: " + p.stderr[-1500:]}
     info = json.loads(p.stdout)
-    return {"obligations": 1, "tables": {"generated_access_table": info["rows"], "unrecognised": info["unrecognised"]},
+    return {"obligations": 3, "tables": {"generated_access_table": info["rows"], "generated_marker_rpcs": info["rpcs"],
+                                        "generated_marker_endpoints": info["endpoints"], "unrecognised": info["unrecognised"]},
             "rewritten": info["rewritten"], "extract_json": os.path.relpath(jpath, verif)}
